@@ -24,6 +24,9 @@ using B_row  = na::ndarray_t<utl::static_vector<unsigned,CAPN>, utl::static_vect
 using B_col  = na::column_major_ndarray_t<utl::static_vector<unsigned,CAPN>, utl::static_vector<size_t,3>>;
 using C_row  = na::ndarray_t<std::vector<unsigned>, std::vector<size_t>>;                                 // dynamic buffer, dynamic dim
 using C_col  = na::column_major_ndarray_t<std::vector<unsigned>, std::vector<size_t>>;
+using B4_row = na::ndarray_t<utl::static_vector<unsigned,4>, utl::static_vector<size_t,3>>;                 // small capacity 4, bounded dim <= 3
+using B4_col = na::column_major_ndarray_t<utl::static_vector<unsigned,4>, utl::static_vector<size_t,3>>;
+using C4_row = na::ndarray_t<std::vector<unsigned>, std::vector<size_t>>;
 using A3_row = na::ndarray_t<utl::static_vector<unsigned,CAPN>, std::array<size_t,3>>;                    // bounded buffer, fixed dim 3
 
 // observe one ndarray_t object: dim, shape, strides(), logical buffer length, buffer contents
@@ -68,6 +71,8 @@ HIST_ND(k_hist_B_col, B_col)
 HIST_ND(k_hist_C_row, C_row)
 HIST_ND(k_hist_C_col, C_col)
 HIST_ND(k_hist_A3_row, A3_row)
+HIST_ND(k_hist_B4_row, B4_row)
+HIST_ND(k_hist_B4_col, B4_col)
 
 // ---------------------------------------------------------------- legacy classes
 // hybrid_ndarray<unsigned,8,2>: op 0 resize(a,b)  1 x[t](i,j) = v  2 assign other  3 copy-construct+assign  4 self-assign
@@ -88,7 +93,8 @@ KERNEL void K(k_hist_hybrid2)(const unsigned char* ops, const unsigned char* tgt
   for (int t = 0; t < 2; t++) {
     put(x[t]->shape(), oshape + 2*t); put(x[t]->strides(), ostrides + 2*t);
     auto s = x[t]->shape();
-    for (size_t i = 0; i < (size_t)nm::at(s,0) && i < maxe; i++) for (size_t j = 0; j < (size_t)nm::at(s,1) && j < maxe; j++) oelems[16*t + 4*i + j] = (*x[t])(i,j);
+    const size_t s0 = nm::at(s,0), s1 = nm::at(s,1);
+    for (size_t i = 0; i < 4; i++) for (size_t j = 0; j < 4; j++) if (i < s0 && j < s1 && i < maxe && j < maxe) oelems[16*t + 4*i + j] = (*x[t])(i,j);   // constant trip counts, guarded
   }
 }
 // dynamic_ndarray<unsigned>: op 0 resize(shape of sdim extents)  1 x[t](i,j,..) = v via at  2 assign other  3 copy-construct+assign  4 self-assign
@@ -143,7 +149,8 @@ KERNEL void K(k_hist_fixed23)(const unsigned char* ops, const unsigned char* tgt
 using src2_t = hyb_t<unsigned,CAPN,2>;
 template <typename R, typename T> static inline int observe_cast(const R& r, size_t* odim, size_t* oshape, T* odata, const size_t* shape){
   *odim = put(nm::shape(r), oshape);
-  for (size_t i = 0; i < shape[0]; i++) for (size_t j = 0; j < shape[1]; j++) odata[i*shape[1]+j] = (T)r(i,j);
+  const size_t s0 = shape[0], s1 = shape[1];
+  for (size_t i = 0; i < 4; i++) for (size_t j = 0; j < 4; j++) if (i < s0 && j < s1) odata[i*s1+j] = (T)r(i,j);      // constant trip counts (extents <= 4), guarded
   return 1;
 }
 KERNEL int K(k_cast_u8)(const size_t* shape, const unsigned* data, size_t* odim, size_t* oshape, unsigned char* odata){
